@@ -558,6 +558,27 @@ def gen(p):
       ok = ok and sorted(_LOG) == ['add', 'obj', 'scaled']
       lazy_fns.clear_cache(); lazy_fns.clear_object()
       return ok and _raises_missing(h) and _raises_missing(h.a) and _raises_missing(h.scaled(k, cache_result_=c)) and _raises_missing(T(add)(h.b, k))"""))
+  # ---- stateful objects: only the call made with cache_result_=True is cached; attribute / item lookups chained on it are
+  #      evaluated afresh at every materialisation (they yield what the eager expression yields *now*)
+  A(F('ob_stateful_chain', 'v: int, x: int, y: int, c: bool', '0 <= v <= 2 and -3 <= x <= 3 and -3 <= y <= 3', """
+      _reset()
+      class Acc:
+        def __init__(self, start): self.total = start; self.history = {'last': None}
+        def add(self, d):
+          self.total = self.total + d; self.history = {'last': d}        # rebinds, like most metric states
+          return self.total
+      e = Acc(v)
+      la = T(Acc)(v, cache_result_=True)
+      ok = lazy_fns.maybe_make(la) is lazy_fns.maybe_make(la)
+      ok = ok and lazy_fns.maybe_make(la.total) == e.total
+      ok = ok and lazy_fns.maybe_make(la.add(x)) == e.add(x) and lazy_fns.maybe_make(la.total) == e.total
+      ok = ok and lazy_fns.maybe_make(la.add(y)) == e.add(y) and lazy_fns.maybe_make(la.total) == e.total
+      ok = ok and lazy_fns.maybe_make(la.history['last']) == e.history['last']
+      box = [v, x]
+      h = lazy_fns.LazyObject.new(box)
+      ok = ok and lazy_fns.maybe_make(h[0]) == v
+      box[0] = y
+      return ok and lazy_fns.maybe_make(h[0]) == y and lazy_fns.maybe_make(h[1]) == x"""))
   A(F('wit_obj_missing', 'n: int', f'{BO - 2} <= n <= {BO + 1}', """
       _reset()
       n = _vf_real(n)
